@@ -85,3 +85,40 @@ theorem eq_mapLanes {w : Nat} (k n : Nat) (hk : 0 < k) (hw : w = k * n) (F : Bit
   rw [h x i hi, lane_mapLanes k n g x i (by omega) hi]
 
 end SkinnyVerif
+
+namespace SkinnyVerif
+
+/-- bit `p` of a lane-wise function is bit `p % k` of the lane function applied to lane `p / k` -/
+theorem getLsbD_of_lanes {w : Nat} (k n : Nat) (hk : 0 < k) (F : BitVec w → BitVec w) (g : BitVec k → BitVec k)
+    (h : ∀ x i, i < n → lane k i (F x) = g (lane k i x)) (x : BitVec w) (p : Nat) (hp : p < k * n) :
+    (F x).getLsbD p = (g (lane k (p / k) x)).getLsbD (p % k) := by
+  have hi : p / k < n := Nat.div_lt_of_lt_mul hp
+  have h1 := congrArg (fun v => v.getLsbD (p % k)) (h x (p / k) hi)
+  simp only [getLsbD_lane] at h1
+  have hm : p % k < k := Nat.mod_lt _ hk
+  have hjk : k * (p / k) + p % k = p := Nat.div_add_mod p k
+  simpa [hm, hjk] using h1
+
+/-- lane of a sub-word extracted at a lane boundary -/
+theorem lane_extractLsb' {w : Nat} (k i s n : Nat) (x : BitVec w) (h : k * (i + 1) ≤ n) :
+    lane k i (BitVec.extractLsb' s n x) = BitVec.extractLsb' (s + k * i) k x := by
+  apply BitVec.eq_of_getLsbD_eq
+  intro m hm
+  have : k * i + m < n := by
+    have : k * (i + 1) = k * i + k := Nat.mul_succ k i
+    omega
+  simp [lane, BitVec.getLsbD_extractLsb', hm, this, Nat.add_assoc]
+
+end SkinnyVerif
+
+namespace SkinnyVerif
+
+/-- a sub-word of a sub-word -/
+theorem extractLsb'_extractLsb'_le {w : Nat} (a n b m : Nat) (x : BitVec w) (h : a + n ≤ m) :
+    BitVec.extractLsb' a n (BitVec.extractLsb' b m x) = BitVec.extractLsb' (b + a) n x := by
+  apply BitVec.eq_of_getLsbD_eq
+  intro j hj
+  have : a + j < m := by omega
+  simp [BitVec.getLsbD_extractLsb', hj, this, Nat.add_assoc]
+
+end SkinnyVerif
